@@ -49,6 +49,9 @@ instance [REq α] : REq (List α) := ⟨listEq⟩
 /-- `Ord` on `Vec<T>` / slices / `String`: lexicographic, a proper prefix is smaller -/
 instance [ROrd α] : ROrd (List α) := ⟨List.compareLex ROrd.cmp⟩
 
+/-- `==` on tuples: component by component -/
+instance [REq α] [REq β] : REq (α × β) := ⟨fun a b => REq.eq a.1 b.1 && REq.eq a.2 b.2⟩
+
 instance [REq α] : REq (Option α) :=
   ⟨fun a b => match a, b with
     | some x, some y => REq.eq x y
